@@ -19,7 +19,7 @@ RULE = (
     "independent codec; every yielded block copied at yield time and compared with D[p_k:p_k+len_k], "
     "p_{k+1}=p_k+len_k-skipback, concatenation after dropping skipback = D[start:start+nsamps]; ValueError only "
     "before the first yield, required when skipback>=g, forbidden when 2*skipback<=g. "
-    "Stream file names do not sort in time order (9,10,11 / z,y,x); header forms vary; plans may be abandoned mid-way before the next plan on the same reader. "
+    "Stream file names do not sort in time order (9,10,11 / z,y,x); header forms vary; plans may be abandoned mid-way before the next plan on the same reader, or all be created before any is consumed (with another read in between). "
     "Non-trivial = an accepted plan yielding >=2 blocks; distinct by canonical case JSON."
 )
 ASSUMPTIONS = [
@@ -56,29 +56,38 @@ def eq_bits(a: np.ndarray, b: np.ndarray) -> bool:
     return a.dtype == b.dtype and np.array_equal(a, b)
 
 
-def check_plan(reader, D, pl, allocator=None):
-    """Run one plan against the model array D (N, nchans). Returns (labels, nblocks)."""
-    N, nchans = D.shape
-    gulp, start, nsamps, skipback = pl["gulp"], pl["start"], pl["nsamps"], pl["skipback"]
-    eff = (N - start) if nsamps is None else nsamps
-    g = min(gulp, eff)
-    labels = []
-    kwargs = {"gulp": gulp, "start": start, "nsamps": nsamps, "skipback": skipback, "quiet": True, "description": "verif"}
+def make_iter(reader, pl, allocator=None):
+    """Create the plan's iterator without consuming it. Returns (iterator or None, exception or None, labels)."""
+    kwargs = {"gulp": pl["gulp"], "start": pl["start"], "nsamps": pl["nsamps"], "skipback": pl["skipback"], "quiet": True, "description": "verif"}
     kwargs = vs.as_np_ints(kwargs, pl.get("np_ints"))
-    if pl.get("np_ints"):
-        labels.append("numpy_int_arguments")
+    labels = ["numpy_int_arguments"] if pl.get("np_ints") else []
     if allocator is not None:
         kwargs["allocator"] = allocator
-    blocks = []
-    yielded = 0
     try:
         if pl.get("positional"):
             # the plan as the property writes it: read_plan(gulp, start, nsamps, skipback), arguments by position
             pos = [kwargs.pop(k) for k in ("gulp", "start", "nsamps", "skipback")]
-            plan_iter = reader.read_plan(*pos, **kwargs)
             labels.append("positional_arguments")
-        else:
-            plan_iter = reader.read_plan(**kwargs)
+            return reader.read_plan(*pos, **kwargs), None, labels
+        return reader.read_plan(**kwargs), None, labels
+    except Exception as exc:  # noqa: BLE001  (judged by check_plan exactly as if raised by the first next())
+        return None, exc, labels
+
+
+def check_plan(reader, D, pl, allocator=None, prepared=None):
+    """Run one plan against the model array D (N, nchans). Returns (labels, nblocks).  `prepared` is the result of
+    make_iter for this plan when the iterator was created earlier (other plans were created, or other reads were
+    done on the reader, between its creation and now)."""
+    N, nchans = D.shape
+    gulp, start, nsamps, skipback = pl["gulp"], pl["start"], pl["nsamps"], pl["skipback"]
+    eff = (N - start) if nsamps is None else nsamps
+    g = min(gulp, eff)
+    blocks = []
+    yielded = 0
+    try:
+        plan_iter, exc0, labels = prepared if prepared is not None else make_iter(reader, pl, allocator)
+        if exc0 is not None:
+            raise exc0
         for nread, ii, arr in plan_iter:
             require(isinstance(arr, np.ndarray) and arr.ndim == 1, "block:not-1d-array")
             blocks.append((int(nread), int(ii), arr.copy()))
@@ -186,9 +195,22 @@ def check_random(case, ctx):
     if case.get("twin"):
         check_twin(case, ctx, labels)
         rd, D = _reader_for(case, ctx)
-    for pl in case["plans"]:
+    prepared = {}
+    if case.get("prepared"):
+        # all plans are created first and consumed afterwards, one after the other; optionally something else is read
+        # through the reader in between.  A plan is the samples [start, start+nsamps) whenever it is iterated.
+        for i, pl in enumerate(case["plans"]):
+            pl.pop("abandon", None)
+            prepared[i] = make_iter(rd, pl, alloc)
+        labels.append("plans_created_before_any_is_consumed")
+        if case["prepared"] == 2:
+            k = min(3, D.shape[0])
+            got = rd.read_block(D.shape[0] - k, k).data.T
+            require(np.array_equal(np.asarray(got, dtype=np.float64), D[D.shape[0] - k:].astype(np.float64)), "prepared:read_block-values")
+            labels.append("other_read_between_creation_and_consumption")
+    for i, pl in enumerate(case["plans"]):
         with vs.debug_logging(case.get("debug_log")):
-            labs, nb = check_plan(rd, D, pl, alloc)
+            labs, nb = check_plan(rd, D, pl, alloc, prepared.get(i))
         labels += labs
         labels.append("plan")
         if nb >= 2:
@@ -256,6 +278,7 @@ def strat_random(tier):
                 # opened by relative names, the process then moves to a directory holding same-named other files
                 "relpath": draw(st.sampled_from([False, False, False, True])),
                 "twin": draw(st.sampled_from([False, False, False, True])),
+                "prepared": draw(st.sampled_from([0, 0, 0, 0, 1, 2])),
                 "debug_log": draw(st.sampled_from([False, False, False, False, True]))}
 
     return s()
